@@ -16,7 +16,7 @@ import time
 from lib import vlib
 
 GROUP = "Sched"
-OVERLAYS = ["server/sched_vh.go", "server/sched_verif_test.go"]
+OVERLAYS = ["server/sched_vh.go", "server/sched_verif_test.go", "server/sched_http_test.go", "server/sched_env_test.go", "llm/sched_export.go"]
 SETUP_BUILDS = [{"name": "sched"},
                 {"name": "schedtest-plain", "test_pkg": "./server", "overlays": OVERLAYS, "extra_env": {"GOEXPERIMENT": "synctest"}}]
 COQ_TARGETS = ["Sched/Properties_C01.v", "Sched/Corr.v"]
@@ -154,9 +154,30 @@ def gen_cases(ctx, n):
     cases = []
     for i in range(n):
         r = rng.random()
-        if r < 0.08:
+        if r < 0.02:
             c = base_case(i, rng)
-        elif r < 0.14:
+        elif r < 0.08:
+            # ka0-reuse: keep-alive 0 (or a duration zeroed by an explicit unload / an eviction): the last holder finishes
+            # exactly while the next request for the model goes through needsReload / useLoadedRunner
+            c = base_case(i, rng, nmodels=rng.choice([1, 1, 2]), nreq=rng.randint(3, 5), klass="ka0-reuse")
+            for q in c["reqs"]:
+                q["m"], q["ka"], q["ngpu"], q["adapter"], q["ctx"] = 0, rng.choice([0, 0, 0, 5]), -1, 0, 2048
+            if len(c["models"]) == 2:
+                c["reqs"][-1]["m"] = 1
+            for m in c["models"]:
+                m["bad"], m["vram"] = False, 10 ** 9
+            c["max"], c["maxq"], c["finish_hot"], c["expire_w"] = rng.choice([0, 1, 1]), 8, 0.7, rng.choice([0.6, 1.5])
+            c["pint"], c["pfail"], c["steps"] = 0.75, 0.0, rng.choice([70, 110])
+        elif r < 0.11:
+            # self-close: the server process of a runner dies on its own while requests hold it (its Ping fails from
+            # then on); further requests with the same options arrive
+            c = base_case(i, rng, nmodels=1, nreq=rng.randint(3, 5), klass="self-close")
+            for q in c["reqs"]:
+                q["ka"], q["ngpu"], q["adapter"], q["ctx"] = rng.choice([None, -1, 1000]), -1, 0, 2048
+            c["models"][0].update({"bad": False, "vram": 10 ** 9})
+            c["max"], c["maxq"], c["self_close"] = rng.choice([0, 1, 3]), 8, True
+            c["pint"], c["pfail"], c["steps"] = 0.75, 0.0, rng.choice([70, 110])
+        elif r < 0.16:
             # admission: more GetRunner callers than queue slots, each call in its own goroutine (conc_submit) so that
             # the callers interleave inside GetRunner, while the pending loop is mostly kept parked (hold_sched): the
             # queue stands at capacity - 1 / at capacity when two or more callers race for it
@@ -169,7 +190,7 @@ def gen_cases(ctx, n):
             c["max"], c["maxq"], c["conc_submit"], c["hold_sched"] = rng.choice([0, 1, 3]), mq, True, rng.choice([0.8, 0.95])
             c["pint"], c["pfail"], c["steps"] = rng.choice([0.4, 0.6]), 0.0, rng.choice([50, 80])
             c["force_direct"] = True
-        elif r < 0.20:
+        elif r < 0.21:
             # cycles: one model, sequential load / finish / expire / unload cycles, more of them than the internal
             # event queues have slots (OLLAMA_MAX_QUEUE); passive drain
             mq = rng.choice([1, 1, 2, 3])
@@ -265,7 +286,27 @@ def gen_cases(ctx, n):
                 q["ngpu"], q["adapter"], q["ctx"], q["ka"] = -1, 0, 2048, rng.choice([-1, 1000])
             c["max"], c["pfail"] = rng.choice([0, 2, 3]), 0.0
             v_ = rng.random()
-            if v_ < 0.25:
+            if v_ < 0.15:
+                # a reserve per GPU (OLLAMA_GPU_OVERHEAD) larger than what the first model leaves free (incl. nothing)
+                ov = rng.choice([256 * 1024 * 1024, 10 ** 9])
+                c["overhead"] = ov
+                c["models"][0].pop("edge", None)
+                c["models"][0]["vram"] = G - rng.choice([0, 1, ov // 2, ov - 1])
+            elif v_ < 0.30:
+                # two GPUs of one library, the first without room for a single layer; the first model only fits
+                # partially and is spread by the partial-fit path over both (all its bytes on the second), the next
+                # request (num_gpu = 1) fits only where the first one is not; the mock servers report the REAL
+                # per-GPU estimate through the real EstimatedVRAMByGPU (real_vram)
+                MB = 1024 * 1024
+                a_ = rng.randint(4, 24) * MB
+                c["gpus"] = [{"id": "0", "lib": "metal", "total": a_, "free": a_}, {"id": "1", "lib": "metal", "total": G, "free": G}]
+                c["last_gpu_edge"] = True       # the second GPU takes the blocks of a model but not its output layer
+                c["models"][0].pop("edge", None)
+                c["real_vram"], c["noconf"], c["par"] = True, True, 1
+                for q in c["reqs"][1:]:
+                    q["ngpu"] = 1               # one layer on a GPU is enough for these requests: a "full fit" where one layer fits
+                c["force_direct"] = True
+            elif v_ < 0.40:
                 # the next model fits with one slot but not with the four the scheduler tries first
                 c["models"][0]["edge_par"] = 4
                 c["par"] = rng.choice([0, 0, 4])
@@ -286,6 +327,16 @@ def gen_cases(ctx, n):
                 if rng.random() < 0.2:
                     c["models"][1].update({"name": "m1", "nofa": False})      # a model that can: the quantised cache is right
                 c["force_direct"] = True
+        if rng.random() < 0.35:
+            # the limits are spelled the way env files and container runtimes pass them: quotes, padding, leading zeros
+            sp = {}
+            if c["max"] > 0:
+                sp["OLLAMA_MAX_LOADED_MODELS"] = spell_number(rng, c["max"])
+            sp["OLLAMA_MAX_QUEUE"] = spell_number(rng, c["maxq"])
+            sp["OLLAMA_NUM_PARALLEL"] = spell_number(rng, c["par"])
+            if c.get("overhead"):
+                sp["OLLAMA_GPU_OVERHEAD"] = spell_number(rng, c["overhead"])
+            c["spell"] = sp
         if c["klass"] != "queue" and not c.pop("force_direct", False) and rng.random() < 0.5:
             to_sr(c)
         else:
@@ -355,15 +406,28 @@ def monitor(case, o):
     submitted = []
     started = {}       # rid -> (model, key)
     live = set()
+    selfclosed = {}     # rid -> step at which its server process died on its own
     loaded_ok, load_failed = set(), {}      # rid: WaitUntilRunning returned nil / rid -> step at which it returned an error
     nmax = case["max"]
     for i, e in flat_events(o):
         k = e[0]
+        if k == "selfclose":
+            selfclosed[e[1]] = i
         if k == "wait":
             if e[2] == "ok":
                 loaded_ok.add(e[1])
             else:
                 load_failed[e[1]] = i
+        if k == "newserver" and len(e) > 12 and e[9] > 0 and e[8] != 0 and e[12] == 0:
+            v["C11"].append(({"class": "no-fit-start"}, "step %d: a runner for model %d is started on %s while %d other runner(s) are loaded; with the memory those runners "
+                             "really occupy per GPU (free passed, bytes of this estimate, as reported by EstimatedVRAMByGPU, free by the harness' books: %s) "
+                             "the memory estimate does not place all its layers there" % (i, e[1], e[6], e[9], e[11])))
+        if k == "newserver" and len(e) > 11:
+            for gi, row in enumerate(e[11]):
+                if row[1] != row[2] or row[1] > row[0]:
+                    v["C11"].append(({"class": "gpu-attribution"}, "step %d: the estimate of the runner started for model %d puts %d bytes on GPU #%d of %s (free memory %d) "
+                                     "but EstimatedVRAMByGPU reports %d for it" % (i, e[1], row[1], gi, e[6], row[0], row[2])))
+                    break
         if k == "newserver" and len(e) > 9 and e[9] > 0 and e[8] == 0:
             v["C11"].append(({"class": "no-fit-start"}, "step %d: a runner for model %d is started on %s while %d other runner(s) are loaded although "
                              "the memory estimate does not place all its layers there" % (i, e[1], e[6], e[9])))
@@ -494,6 +558,7 @@ def monitor(case, o):
     # model, every unanswered request for r's model is compatible with r, no ping of r failed for this request and r's
     # load was not abandoned
     answered, subm, ping_failed = set(), [], set()      # ping_failed: since the pending loop took its current request
+    pinged, dead_at = set(), {}                         # pinged: runners health-checked since the pending loop took its current request
     for i, s_ in enumerate(o["steps"]):
         for e in s_["ev"]:
             if e[0] == "submit":
@@ -502,11 +567,20 @@ def monitor(case, o):
                 answered.add(e[1])
             elif e[0] == "ping" and e[2] == "fail":
                 ping_failed.add(e[1])
+            if e[0] == "ping":
+                pinged.add(e[1])
+            elif e[0] == "selfclose":
+                dead_at[e[1]] = i
+            elif (e[0] == "reply" and e[2] == "ok" and e[3] in dead_at and e[3] not in pinged
+                  and str(s_["c"].get("g", "")).startswith("Run.go1#")):
+                v["C01"].append(({"class": "grant-dead"}, "step %d: request %d is handed the loaded runner r%s without a health check although its server process "
+                                 "exited at step %d (other requests still hold it): a runner that has shut down must be reloaded, not handed out" % (i, e[1], e[3], dead_at[e[3]])))
         c_ = s_["c"]
         if i == 0 or c_.get("a") != "run" or not str(c_.get("g", "")).startswith("Run.go1#"):
             continue
         if s_["st"]["q"][0] < o["steps"][i - 1]["st"]["q"][0]:
             ping_failed = set()
+            pinged = set()
         before, after = o["steps"][i - 1]["st"]["rs"], s_["st"]["rs"]
         for rid in range(min(len(before), len(after))):
             b, a = before[rid], after[rid]
@@ -617,6 +691,8 @@ def render_trace(case, o):
         c = s["c"]
         a = c["a"]
         inject = []
+        if a == "selfclose":
+            continue            # an event of the environment the model does not have (its effect: pings fail)
         if conc and a == "submit":
             # the call starts in a goroutine of its own; the model's atomic admission step is the goroutine's select
             for e in s["ev"]:
@@ -757,7 +833,7 @@ def detect_variant(ctx, cases, obs):
 def run_group(ctx, pid, ncases=None, only_cases=None):
     ctx.rule = ("cases: corpus of minimal past failures first, then random schedules of submit / cancel / load-ok / load-fail / ping-fail / tick / "
                 "explicit unload and of the scheduler's own goroutines (one synchronisation operation at a time) over <= 3 models and <= 6 requests, "
-                "classes random / admission (concurrent GetRunner callers) / cycles / dup-expiry-reload / handover-cancel / expiry-race / reuse / queue / join-during-load / twogpu / fit (GPU, CPU, KV-cache variants); non-trivial = at least one runner was started and one request answered; "
+                "classes random / ka0-reuse / self-close / admission (concurrent GetRunner callers) / cycles / dup-expiry-reload / handover-cancel / expiry-race / reuse / queue / join-during-load / twogpu / fit (GPU, CPU, KV-cache, GPU-overhead, two-GPU attribution variants); non-trivial = at least one runner was started and one request answered; "
                 "distinct = by the observed choice sequence")
     ctx.trusted = ["Coq 8.16.1 kernel + vm_compute", "hand-written LTS coq/Sched/Lts.v tied to server/sched.go by the conformance run only",
                    "the instrumenter harness/instr (adds yield points, resolves select nondeterminism, swaps sync.Mutex for a channel-backed mutex)",
@@ -817,6 +893,12 @@ def run_group(ctx, pid, ncases=None, only_cases=None):
         ctx.violation(sig, what, {"case": {k: v for k, v in rc.items() if k not in ("klass",)}, "what": what,
                                   "events": [[i, e] for i, e in flat_events(ro) if e[0] not in ("est", "getgpus", "waitcall")][:80],
                                   "how_to_replay": "python3 check.py %s --replay <this file>" % pid})
+    if pid == "C02" and only_cases is None:
+        http_stage(ctx, binp)
+    if pid == "C01" and only_cases is None:
+        llm_stage(ctx)
+    if pid == "C11" and only_cases is None:
+        env_stage(ctx, binp)
     # ---- conformance: which model variant does the implementation conform to, and is it the repaired one?
     t = time.time()
     v, bad = detect_variant(ctx, cases, obs)
@@ -833,7 +915,9 @@ def run_group(ctx, pid, ncases=None, only_cases=None):
         m = monitor(c, o)
         if any(m[p] for p in m):
             viol_ids.add(c["id"])
-    bad = [i for i in bad if cases[i]["id"] not in viol_ids]
+    # noconf: runs through code the model abstracts (a runner spread over two GPUs is unloaded through the real
+    # waitForVRAMRecovery: real GPU discovery, a ticker goroutine) are monitored only
+    bad = [i for i in bad if cases[i]["id"] not in viol_ids and not cases[i].get("noconf")]
     ctx.obligation("correspondence: the LTS variant %s accepts all %d observed runs (visible events + state projection after every step)" % (
         "fxA=%d fxB=%d fxC=%d" % tuple(int(x) for x in v), len(cases)), not bad)
     for i in bad[:10]:
@@ -855,9 +939,244 @@ def run(ctx):
     run_group(ctx, "C01")
 
 
+WS = ["", " ", "\t", "  ", "\n", " \t "]
+QS = ["", "\"", "'", "\"'", "''"]
+ENV_UINT = {"OLLAMA_MAX_LOADED_MODELS": 0, "OLLAMA_NUM_PARALLEL": 0, "OLLAMA_MAX_QUEUE": 512, "OLLAMA_CONTEXT_LENGTH": 2048, "OLLAMA_GPU_OVERHEAD": 0}
+ENV_BOOL = ["OLLAMA_SCHED_SPREAD", "OLLAMA_FLASH_ATTENTION"]
+
+
+def spell_number(rng, n):
+    """a spelling of n that means n to envconfig: padding outside, quotes inside, leading zeros"""
+    d = "0" * rng.choice([0, 0, 1, 2]) + str(n)
+    q = rng.choice(QS)
+    return rng.choice(WS) + q + d + q[::-1] + rng.choice(WS)
+
+
+def cstr(sv):
+    return "[%s]" % "; ".join(str(b) for b in sv.encode())
+
+
+def env_stage(ctx, binp):
+    """C11, the scheduler's limits as the real envconfig readers see them, on generated spellings, against the model
+    coq/Sched/EnvCfg.v (strip -> parse -> default)"""
+    rng = ctx.rng
+    t = time.time()
+    unum = ["0", "1", "2", "3", "7", "007", "512", "4096", "1000000000", "18446744073709551615", "18446744073709551616", "+1", "-1", "1.0", "1e3",
+            "0x10", "1_000", "", "abc", "1 0", "١"]
+    bools = ["1", "0", "true", "false", "TRUE", "FALSE", "True", "False", "t", "f", "T", "F", "yes", "no", "on", "off", "", "2", "tRuE"]
+    durs = ["5m", "300", "-1", "0", "30s", "1h", "-5m", "+10s", "10ms", "250us", "7ns", "abc", "5 m", "5x", "", "-0", "+300", "m", "00030s"]
+    rows = []
+
+    def deco(v):
+        k = rng.random()
+        q, q2 = rng.choice(QS), rng.choice(QS)
+        if k < 0.55:
+            return rng.choice(WS) + q + v + q[::-1] + rng.choice(WS)       # padding outside, quotes inside
+        if k < 0.75:
+            return q + rng.choice(WS) + v + rng.choice(WS) + q[::-1]       # quotes outside: the padding stays
+        if k < 0.9:
+            return rng.choice(WS) + q + v + q2 + rng.choice(WS)            # unbalanced quotes
+        return v
+    for key in ENV_UINT:
+        for v in unum:
+            for _ in range(3):
+                rows.append((key, deco(v)))
+    for key in ENV_BOOL:
+        for v in bools:
+            for _ in range(2):
+                rows.append((key, deco(v)))
+    for v in durs:
+        for _ in range(4):
+            rows.append(("OLLAMA_KEEP_ALIVE", deco(v)))
+    rows = [(k, v) for k, v in rows if "\x00" not in v and all(ord(ch) < 128 for ch in v)]
+    inp = "".join(json.dumps({"key": k, "val": v}) + "\n" for k, v in rows)
+    env = dict(os.environ)
+    env["VERIF_SCHED_ENV"] = "1"
+    p = subprocess.run([binp, "-test.run", "^TestVerifSchedEnv$"], input=inp, env=env, capture_output=True, text=True, cwd=os.path.join(vlib.REPO, "server"), timeout=120)
+    got = []
+    for line in p.stdout.splitlines():
+        if line.startswith("{"):
+            try:
+                got.append(json.loads(line))
+            except ValueError:
+                pass
+    ok = len(got) == len(rows)
+    ctx.obligation("environment stage: the real envconfig readers answered %d generated spellings" % len(rows), ok, (p.stdout[-800:] + p.stderr[-800:]))
+    if not ok:
+        ctx.proof_failures.append({"obligation": "correspondence: the environment stage of the scheduler harness did not answer every spelling", "detail": p.stderr[-1500:]})
+        return
+    items = []
+    for r in got:
+        sv = cstr(r["val"])
+        if "u" in r:
+            items.append("N.eqb (read_uint %d%%N %s) %s%%N" % (ENV_UINT[r["key"]], sv, r["u"]))
+        elif "b" in r:
+            items.append("Bool.eqb (read_bool %s) %s" % (sv, cb(r["b"])))
+        else:
+            items.append("Z.eqb (read_keep_alive %s) (%s)%%Z" % (sv, r["d"]))
+    hdr = "From Coq Require Import List Bool NArith ZArith.\nFrom V Require Import Sched.EnvCfg.\nImport ListNotations.\n"
+    bad, log = ctx.coq_eval(hdr, items, name="envcfg")
+    ctx.extra["env_stage_s"] = round(time.time() - t, 1)
+    if bad is None:
+        ctx.obligation("environment stage: model evaluated", False, log)
+        ctx.proof_failures.append({"obligation": "correspondence evaluation (EnvCfg) failed in coqc", "detail": log})
+        return
+    ctx.obligation("environment stage: envconfig's readers agree with the model (strip, parse, default) on all %d spellings" % len(rows), not bad)
+    for i in bad[:6]:
+        r = got[i]
+        ctx.violation({"class": "env-spelling", "key": r["key"]},
+                      "%s=%r: the real reader returns %s where strip -> parse -> default gives something else (a limit spelled with quotes / padding must mean the same as the "
+                      "plain number; an unparsable one the default)" % (r["key"], r["val"], r.get("u", r.get("b", r.get("d")))),
+                      {"stage": "env", "observation": r, "how_to_replay": "python3 check.py C11 --replay <this file>"})
+
+
+LLM_OVERLAYS = ["llm/sched_llm_test.go", "llm/sched_export.go"]
+HOP = {"ping": "HPing", "wait": "HWait", "crash": "HCrash", "close": "HClose", "exit": "HExit", "sleep": "HSleep"}
+
+
+def llm_stage(ctx):
+    """C01, the real llm.llmServer health check: no Ping / WaitUntilRunning succeeds once Close() has returned, the
+    crash path of Completion has run or the process has exited (harness/overlay/llm/sched_llm_test.go); the probe
+    results are compared, operation by operation, with the state machine of coq/Sched/LlmHealth.v"""
+    t = time.time()
+    repo = vlib.REPO
+    with vlib.Lock("go"):
+        tag = "" if repo == "/repo" else "-" + hashlib.sha1(repo.encode()).hexdigest()[:8]
+        gen_dir = os.path.join(vlib.BUILD, "sched" + tag)
+        os.makedirs(gen_dir, exist_ok=True)
+        repl = {}
+        for rel in LLM_OVERLAYS:
+            pkg, f = os.path.split(rel)
+            repl[os.path.join(repo, pkg, "zz_verif_" + f)] = os.path.join(vlib.HARNESS, "overlay", rel)
+        ovj = os.path.join(gen_dir, "overlay_llm.json")
+        json.dump({"Replace": repl}, open(ovj, "w"))
+        outp = os.path.join(vlib.BUILD, "bin", "schedllm" + tag)
+        rc, out = vlib.sh(["go", "test", "-c", "-tags", "verif", "-overlay", ovj, "-o", outp, "./llm"], cwd=repo, env=vlib.goenv(), timeout=900)
+    if rc != 0:
+        ctx.obligation("llm stage: the harness builds against the current llm package", False, out[-2000:])
+        ctx.proof_failures.append({"obligation": "correspondence: the llm stage of the scheduler harness no longer builds", "detail": out[-2000:]})
+        return
+    env = dict(os.environ)
+    env["VERIF_SCHED_LLM"] = "1"
+    rc, out = vlib.sh([outp, "-test.run", "^TestVerifSchedLLM$", "-test.timeout", "120s"], cwd=os.path.join(repo, "llm"), env=env, timeout=150)
+    ctx.extra["llm_stage_s"] = round(time.time() - t, 1)
+    seqs, done = [], False
+    for line in out.splitlines():
+        line = line.strip()
+        if line.startswith("{"):
+            try:
+                r = json.loads(line)
+            except ValueError:
+                continue
+            if "seq" in r:
+                seqs.append(r["seq"])
+            elif r.get("done"):
+                done = True
+    ctx.obligation("llm stage: %d operation sequences on a real llmServer (dummy child process + httptest /health, /completion)" % len(seqs), done and bool(seqs), out[-1500:])
+    if not (done and seqs):
+        ctx.proof_failures.append({"obligation": "correspondence: the llm stage of the scheduler harness did not run to the end", "detail": out[-2000:]})
+        return
+    replay = {"stage": "llm", "how_to_replay": "cd <repo>/llm && VERIF_SCHED_LLM=1 %s -test.run '^TestVerifSchedLLM$'  (or: python3 check.py C01 --replay <this file>)" % outp}
+    items = []
+    for seq in seqs:
+        down = None
+        for i, o in enumerate(seq):
+            if o["op"] in ("ping", "wait") and o.get("ok") and down is not None:
+                ctx.violation({"class": "ping-after-close", "op": o["op"]},
+                              "%s succeeds at position %d although the server was shut down at position %d (%s): needsReload would hand a shut-down runner to a request; sequence %s"
+                              % (o["op"], i, down, seq[down]["op"], [(x["op"], x.get("ms", 0), x.get("ok")) for x in seq]), dict(replay, sequence=seq))
+                break
+            if o["op"] in ("close", "exit") or (o["op"] == "crash" and o.get("ok")):
+                down = i if down is None else down
+        ops = "[%s]" % "; ".join(HOP[o["op"]] for o in seq)
+        obs = "[%s]" % "; ".join(("Some %s" % cb(bool(o.get("ok")))) if o["op"] in ("ping", "wait") else "None" for o in seq)
+        items.append("chk_health %s %s" % (ops, obs))
+    hdr = "From Coq Require Import List Bool.\nFrom V Require Import Sched.LlmHealth.\nImport ListNotations.\n"
+    bad, log = ctx.coq_eval(hdr, items, name="llmhealth")
+    if bad is None:
+        ctx.obligation("llm stage: model evaluated on the observed sequences", False, log)
+        ctx.proof_failures.append({"obligation": "correspondence evaluation (LlmHealth) failed in coqc", "detail": log})
+        return
+    ctx.obligation("llm stage: the health state machine (Sched/LlmHealth.v) predicts every probe result of the %d sequences" % len(seqs), not bad or bool(ctx.violations))
+    for i in bad[:5]:
+        if not ctx.violations:
+            ctx.mismatch("Sched/LlmHealth.chk_health", {"sequence": seqs[i]}, {"sequence": seqs[i]})
+
+
+RUNNER_ROUTES = ["/api/generate", "/api/chat", "/api/embed", "/api/embeddings", "/v1/chat/completions", "/v1/completions", "/v1/embeddings"]
+
+
+def http_stage(ctx, binp):
+    """C02, the handlers: every endpoint of the real route table that obtains a runner gives it back (real gin /
+    net/http stack, real scheduler, mock llm servers; harness/overlay/server/sched_http_test.go)"""
+    t = time.time()
+    env = dict(os.environ)
+    env["VERIF_SCHED_HTTP"] = "1"
+    rc, out = vlib.sh([binp, "-test.run", "^TestVerifSchedHTTP$", "-test.timeout", "150s"], cwd=os.path.join(vlib.REPO, "server"), env=env, timeout=200)
+    ctx.extra["http_stage_s"] = round(time.time() - t, 1)
+    rows, routes, done, stopped = [], [], False, None
+    for line in out.splitlines():
+        line = line.strip()
+        if not line.startswith("{"):
+            continue
+        try:
+            r = json.loads(line)
+        except ValueError:
+            continue
+        if "routes" in r:
+            routes = r["routes"]
+        elif "route" in r:
+            rows.append(r)
+        elif r.get("done"):
+            done = True
+        elif r.get("stopped"):
+            stopped = r["stopped"]
+    replay = {"stage": "http", "how_to_replay": "cd <repo>/server && VERIF_SCHED_HTTP=1 %s -test.run '^TestVerifSchedHTTP$'  (or: python3 check.py C02 --replay <this file>)" % binp}
+    nviol = 0
+    for r in rows:
+        if not r.get("obtained"):
+            continue
+        probs = []
+        if r.get("ref_after", 0) != 0:
+            probs.append("the runner's refCount is still %d one second after the response" % r["ref_after"])
+        if not r.get("evict_ok"):
+            probs.append("a later request that has to evict the runner does not complete (status %s)" % r.get("evict_code"))
+        if r.get("keep_alive") == "30ms" and not r.get("closed_by_ka") and r.get("ref_after", 0) == 0:
+            probs.append("the runner is not shut down after its keep-alive")
+        if r.get("loaded_end") or r.get("ps_end"):
+            probs.append("in the end %d runner(s) are still loaded and /api/ps lists %d" % (r.get("loaded_end", 0), r.get("ps_end", 0)))
+        if r.get("never_closed"):
+            probs.append("server(s) %s were started but never shut down" % r["never_closed"])
+        if probs:
+            nviol += 1
+            ctx.violation({"class": "handler-leaks-runner", "route": r["route"]},
+                          "POST %s (stream=%s, %s, keep_alive %s): the handler obtained a runner and never gave it back: %s"
+                          % (r["route"], r["stream"], r["mode"], r["keep_alive"], "; ".join(probs)), dict(replay, observation=r))
+    got = sorted(set(r["route"] for r in rows if r.get("obtained")))
+    missing = [x for x in RUNNER_ROUTES if x not in got]
+    ctx.obligation("HTTP stage: every runner-obtaining endpoint of the route table was exercised through the real gin / net/http stack "
+                   "(%d POST routes tried, %d obtained a runner, %d requests)" % (len(routes), len(got), len(rows)),
+                   (done and not missing) or nviol > 0, "missing %s; rc %s; %s\n%s" % (missing, rc, stopped, out[-1500:]))
+    if not ((done and not missing) or nviol > 0):
+        ctx.proof_failures.append({"obligation": "correspondence: the HTTP stage of the scheduler harness did not run to the end", "detail": out[-2000:]})
+
+
 def replay_group(ctx, pid, path):
     r = json.load(open(path))
     ctx.log("replaying", path)
+    if (r.get("replay") or {}).get("stage") == "env":
+        binp = build_sched(ctx)
+        if binp:
+            env_stage(ctx, binp)
+        return True
+    if (r.get("replay") or {}).get("stage") == "llm":
+        llm_stage(ctx)
+        return True
+    if (r.get("replay") or {}).get("stage") == "http":
+        binp = build_sched(ctx)
+        if binp:
+            http_stage(ctx, binp)
+        return True
     case = (r.get("replay") or {}).get("case") or r.get("case")
     if not case and r.get("disagreements"):
         case = r["disagreements"][0].get("case")
